@@ -121,7 +121,11 @@ func runHist(ops []Op) (*hist, error) {
 	if err != nil {
 		return nil, err
 	}
-	defer func() { srv.Stop() }()
+	defer func() {
+		if srv != nil {
+			srv.Stop()
+		}
+	}()
 	h := &hist{}
 	ref := map[string][2]string{}
 	for _, op := range ops {
